@@ -9,6 +9,7 @@ package main
 import (
 	"context"
 	"database/sql"
+	"database/sql/driver"
 	"encoding/json"
 	"errors"
 	"fmt"
@@ -42,6 +43,7 @@ type Item struct {
 	NN    bool   `json:"nn,omitempty"`    // child: called as tx.Session(&gorm.Session{DisableNestedTransaction: true}).Transaction(..): nested transactions switched off on the receiver, derived inside the running transaction
 	Cx    bool   `json:"cx,omitempty"`    // child: called as tx.WithContext(ctx).Transaction(..) with a fresh cancellable ctx; item "cancel" cancels the innermost such ctx
 	B     *Blk   `json:"b,omitempty"`     // child
+	Opt   string `json:"opt,omitempty"`   // child: transaction options handed to the nested Transaction call (see Input.TxOpt); a nested block has no BEGIN of its own, they change nothing
 }
 
 // Blk is a block body: items, then the scripted outcome (nil | err | panic, with a sentinel id).
@@ -65,13 +67,20 @@ type Cfg struct {
 }
 
 type Input struct {
-	Top   string   `json:"top"` // block: db.Transaction(body) ; manual: tx := db.Begin(); body; tx.Commit()/tx.Rollback()
-	Body  Blk      `json:"body"`
-	Extra []string `json:"extra,omitempty"`  // manual only: further commit/rollback calls after the end
-	Conn  bool     `json:"conn,omitempty"`   // the program runs inside db.Connection(func(c *gorm.DB) error {...}) on the dedicated-connection handle c
-	ErrIs string   `json:"err_is,omitempty"` // what the injected fault also is (errors.Is): "" | "canceled" (context.Canceled) | "deadline" (context.DeadlineExceeded), while every context of the program is alive
-	Opts  bool     `json:"opts,omitempty"`   // Transaction(fc, &sql.TxOptions{}) / Begin(&sql.TxOptions{})
-	Stray []string `json:"stray,omitempty"`  // before the program: commit/rollback called on a handle that is NOT in a transaction (a session copy of the pool handle)
+	Top string `json:"top"` // block: db.Transaction(body) ; manual: tx := db.Begin(); body; tx.Commit()/tx.Rollback() ; single: no block at all - the writes / reads of body are made one after the other on the pool handle (each Create inside the transaction gorm opens for it, unless SkipDefaultTransaction; write via "exec": a raw Exec, which gets none)
+	// single: derivations of the pool handle made and thrown away before the calls: skipdef | nonest | prep | hooks
+	// (root.Session(&gorm.Session{SkipDefaultTransaction: true}) ...): they must not change the handle they were derived from
+	Discard []string `json:"discard,omitempty"`
+	Body    Blk      `json:"body"`
+	Extra   []string `json:"extra,omitempty"`  // manual only: further commit/rollback calls after the end
+	Conn    bool     `json:"conn,omitempty"`   // the program runs inside db.Connection(func(c *gorm.DB) error {...}) on the dedicated-connection handle c
+	ErrIs   string   `json:"err_is,omitempty"` // what the injected fault also is (errors.Is): "" | "canceled" (context.Canceled) | "deadline" (context.DeadlineExceeded), while every context of the program is alive
+	Opts    bool     `json:"opts,omitempty"`   // Transaction(fc, &sql.TxOptions{}) / Begin(&sql.TxOptions{})  (older inputs; = TxOpt "empty")
+	// the variadic options of the outermost Transaction / Begin call, "+"-separated, each one of: nil (a nil
+	// *sql.TxOptions) | empty (&sql.TxOptions{}) | ro (ReadOnly) | ser (Isolation: LevelSerializable) | ro_ser.
+	// go-sqlite3 accepts and ignores them: the block's statements run and commit as without options.
+	TxOpt string   `json:"tx_opt,omitempty"`
+	Stray []string `json:"stray,omitempty"` // before the program: commit/rollback called on a handle that is NOT in a transaction (a session copy of the pool handle)
 	Cfg   Cfg      `json:"cfg"`
 	Fault int      `json:"fault"` // index of the driver operation that fails (-1: none)
 	Phase string   `json:"phase"` // exec | prepare (fail the first driver call of the operation, i.e. its prepare if it has one)
@@ -107,17 +116,18 @@ type Op struct {
 }
 
 type Observed struct {
-	Log     []Obs    `json:"log"`
-	Entered bool     `json:"entered"`
-	Exit    Cls      `json:"exit"`
-	Ret     Cls      `json:"ret"`
-	Extra   []Cls    `json:"extra,omitempty"`
-	Stray   []Cls    `json:"stray,omitempty"`
-	Table   []int64  `json:"table"`
-	InUse   int64    `json:"in_use"`
-	OpenTx  int64    `json:"open_tx"`
-	Ops     []Op     `json:"ops"`
-	Notes   []string `json:"notes,omitempty"`
+	Log      []Obs    `json:"log"`
+	Entered  bool     `json:"entered"`
+	Exit     Cls      `json:"exit"`
+	Ret      Cls      `json:"ret"`
+	Extra    []Cls    `json:"extra,omitempty"`
+	Stray    []Cls    `json:"stray,omitempty"`
+	BeginOpt int64    `json:"begin_opt"` // the options the pool's BeginTx received from gorm: -1 not observed (the pool is *sql.DB itself, or no BEGIN reached it) | 0 nil | 1 empty | 2 ro | 3 ser | 4 ro_ser
+	Table    []int64  `json:"table"`
+	InUse    int64    `json:"in_use"`
+	OpenTx   int64    `json:"open_tx"`
+	Ops      []Op     `json:"ops"`
+	Notes    []string `json:"notes,omitempty"`
 }
 
 // ---------------------------------------------------------------- environment
@@ -164,6 +174,52 @@ func (n noSavePoints) Explain(sql string, vars ...interface{}) string {
 type wrapPool struct {
 	*sql.DB
 	failCommit bool
+	lastOpt    int64 // code of the options the last BeginTx call received (-1: none since the reset)
+}
+
+// optCode / optOf: the transaction options the programs use, as a code (0 = a nil pointer).
+var optNames = []string{"nil", "empty", "ro", "ser", "ro_ser"}
+
+func optOf(name string) *sql.TxOptions {
+	switch name {
+	case "empty":
+		return &sql.TxOptions{}
+	case "ro":
+		return &sql.TxOptions{ReadOnly: true}
+	case "ser":
+		return &sql.TxOptions{Isolation: sql.LevelSerializable}
+	case "ro_ser":
+		return &sql.TxOptions{Isolation: sql.LevelSerializable, ReadOnly: true}
+	}
+	return nil
+}
+
+func optCode(o *sql.TxOptions) int64 {
+	switch {
+	case o == nil:
+		return 0
+	case *o == sql.TxOptions{}:
+		return 1
+	case *o == sql.TxOptions{ReadOnly: true}:
+		return 2
+	case *o == sql.TxOptions{Isolation: sql.LevelSerializable}:
+		return 3
+	case *o == sql.TxOptions{Isolation: sql.LevelSerializable, ReadOnly: true}:
+		return 4
+	}
+	return 9
+}
+
+// optList: the variadic argument list "a+b" stands for.
+func optList(spec string) []*sql.TxOptions {
+	if spec == "" {
+		return nil
+	}
+	var l []*sql.TxOptions
+	for _, n := range strings.Split(spec, "+") {
+		l = append(l, optOf(n))
+	}
+	return l
 }
 
 type wrapTx struct {
@@ -172,6 +228,7 @@ type wrapTx struct {
 }
 
 func (p *wrapPool) BeginTx(ctx context.Context, opts *sql.TxOptions) (gorm.ConnPool, error) {
+	p.lastOpt = optCode(opts)
 	tx, err := p.DB.BeginTx(ctx, opts)
 	if err != nil {
 		return nil, err
@@ -193,6 +250,11 @@ type ctxFault struct{ ctx error }
 
 func (e *ctxFault) Error() string   { return errFault.Error() + ": " + e.ctx.Error() }
 func (e *ctxFault) Is(t error) bool { return t == errFault || t == e.ctx }
+
+// the injected fault that also is driver.ErrBadConn: database/sql tries the call again (a statement
+// bound to a transaction on the same connection, a BEGIN on further connections) and gives up after
+// three attempts; the fault persists for all attempts of the one logical operation
+var badConnFault error = &ctxFault{driver.ErrBadConn}
 
 type env struct {
 	wrap  *wrapPool
@@ -320,6 +382,8 @@ func derive(h *gorm.DB, via string) *gorm.DB {
 		return h.Session(&gorm.Session{PrepareStmt: true})
 	case "ctx":
 		return h.WithContext(h.Statement.Context) // the same context, set again
+	case "sess_hooks":
+		return h.Session(&gorm.Session{SkipHooks: true})
 	}
 	return h
 }
@@ -426,7 +490,7 @@ func (r *runner) body(h *gorm.DB, b *Blk, log *[]Obs) error {
 						o.Cancelled = true
 					}
 				}()
-				err = recv.Transaction(func(tx *gorm.DB) error { return r.fc(tx, it.B, &o) })
+				err = recv.Transaction(func(tx *gorm.DB) error { return r.fc(tx, it.B, &o) }, optList(it.Opt)...)
 				returned = true
 				return
 			}()
@@ -500,6 +564,9 @@ func run(in Input) Observed {
 	var ops []Op
 	pendingPrepare := false
 	e.rec.Reset()
+	if e.wrap != nil {
+		e.wrap.lastOpt = -1
+	}
 	var theFault error = errFault
 	switch in.ErrIs {
 	case "canceled":
@@ -507,12 +574,34 @@ func run(in Input) Observed {
 	case "deadline":
 		theFault = &ctxFault{context.DeadlineExceeded}
 	}
+	var sticky *recdrv.Event // the faulted call database/sql tries again (driver.ErrBadConn): two more attempts
+	stickyLeft := 0
 	e.rec.Fault = func(_ int, ev *recdrv.Event) error {
+		if sticky != nil {
+			stickyLeft--
+			if stickyLeft >= 0 && ev.Kind == sticky.Kind && ev.Query == sticky.Query && (ev.Kind == "begin" || ev.Tx == sticky.Tx && ev.Conn == sticky.Conn) {
+				return badConnFault // the same logical operation, attempted again
+			}
+			sticky = nil
+		}
+		fault := func() error {
+			// driver.ErrBadConn for a BEGIN and for calls inside a transaction; a call on the pool outside
+			// any transaction gets the plain fault (database/sql would move it to other connections)
+			// (on a dedicated connection used for several calls it would close that connection for good)
+			if in.ErrIs == "badconn" && (ev.Kind == "begin" || ev.Tx != 0) && !(in.Conn && in.Top == "single") {
+				if ev.Kind == "begin" || ev.Kind == "stmt_exec" || ev.Kind == "stmt_query" { // the calls database/sql attempts again
+					c := *ev
+					sticky, stickyLeft = &c, 2
+				}
+				return badConnFault
+			}
+			return theFault
+		}
 		k := opKind(ev)
 		if ev.Kind == "prepare" {
 			if !pendingPrepare && len(ops) == in.Fault && in.Phase == "prepare" {
 				ops = append(ops, Op{K: k, F: true}) // a SAVEPOINT can be prepared too (PrepareStmt set twice)
-				return theFault
+				return fault()
 			}
 			pendingPrepare = true
 			return nil
@@ -520,7 +609,7 @@ func run(in Input) Observed {
 		pendingPrepare = false
 		if len(ops) == in.Fault {
 			ops = append(ops, Op{K: k, F: true})
-			return theFault
+			return fault()
 		}
 		ops = append(ops, Op{K: k})
 		return nil
@@ -560,9 +649,25 @@ func run(in Input) Observed {
 						obs.Stray = append(obs.Stray, classify(h.Rollback().Error))
 					}
 				}
-				var opts []*sql.TxOptions
-				if in.Opts {
+				opts := optList(in.TxOpt)
+				if in.Opts && opts == nil {
 					opts = []*sql.TxOptions{{}}
+				}
+				if in.Top == "single" {
+					for _, d := range in.Discard {
+						switch d {
+						case "skipdef":
+							_ = root.Session(&gorm.Session{SkipDefaultTransaction: true})
+						case "nonest":
+							_ = root.Session(&gorm.Session{DisableNestedTransaction: true})
+						case "prep":
+							_ = root.Session(&gorm.Session{PrepareStmt: true})
+						case "hooks":
+							_ = root.Session(&gorm.Session{SkipHooks: true})
+						}
+					}
+					obs.Ret = classify(r.fc(root, &in.Body, &top))
+					return
 				}
 				if in.Top == "block" {
 					err := root.Transaction(func(tx *gorm.DB) error { return r.fc(tx, &in.Body, &top) }, opts...)
@@ -610,7 +715,13 @@ func run(in Input) Observed {
 			}
 			if in.Conn {
 				// the whole program on ONE dedicated connection: db.Connection(func(c) { ... c.Transaction(...) ... })
-				if cerr := e.db.Connection(func(c *gorm.DB) error { program(c); return nil }); cerr != nil {
+				if cerr := e.db.Connection(func(c *gorm.DB) error {
+					if in.Top == "single" { // c is one chained handle (its Statement and Error are shared by all calls made on it): every call gets its own
+						c = c.Session(&gorm.Session{})
+					}
+					program(c)
+					return nil
+				}); cerr != nil {
 					r.notes = append(r.notes, "Connection: "+cerr.Error())
 				}
 			} else {
@@ -645,6 +756,10 @@ func run(in Input) Observed {
 	obs.Ops = ops
 	if obs.Ops == nil {
 		obs.Ops = []Op{}
+	}
+	obs.BeginOpt = -1
+	if e.wrap != nil && !in.Conn {
+		obs.BeginOpt = e.wrap.lastOpt
 	}
 	obs.InUse = int64(e.sqlDB.Stats().InUse)
 	otx, _, _ := e.rec.Counters()
@@ -753,6 +868,46 @@ func opTerm(o Op) string {
 	return lib.Pair(k, lib.Bool(o.F))
 }
 
+func progOf(in Input) string {
+	if in.Top == "single" {
+		return "(Done RetNil)" // not a block: the calls are in c_single
+	}
+	return progTerm(&in.Body)
+}
+
+func singleTerm(in Input) string {
+	if in.Top != "single" {
+		return "None"
+	}
+	return lib.App("Some", lib.ListOf(in.Body.Items, func(it Item) string {
+		switch {
+		case it.K == "read":
+			return "SRead"
+		case it.Via == "exec" || it.Via == "exec_new":
+			return lib.App("SExec", lib.Z(it.M))
+		}
+		return lib.App("SWrite", lib.Z(it.M))
+	}))
+}
+
+func optsTerm(in Input) string {
+	spec := in.TxOpt
+	if spec == "" && in.Opts {
+		spec = "empty"
+	}
+	if spec == "" {
+		return "[]"
+	}
+	return lib.ListOf(strings.Split(spec, "+"), func(n string) string {
+		for i, x := range optNames {
+			if x == n {
+				return lib.Z(int64(i))
+			}
+		}
+		return lib.Z(9)
+	})
+}
+
 func term(in Input, o Observed) string {
 	fault := "None"
 	if in.Fault >= 0 {
@@ -761,12 +916,13 @@ func term(in Input, o Observed) string {
 	extra := lib.ListOf(in.Extra, func(s string) string { return lib.Bool(s == "commit") })
 	stray := lib.ListOf(in.Stray, func(s string) string { return lib.Bool(s == "commit") })
 	return lib.App("mk_case",
-		lib.Bool(in.Top == "manual"), progTerm(&in.Body), extra, stray,
+		lib.Bool(in.Top == "manual"), progOf(in), extra, stray,
 		lib.App("mk_cfg", lib.Bool(in.Cfg.Prep && !in.Conn) /* on a dedicated connection the handle leaves prepared mode */, lib.Bool(in.Cfg.NoNest), lib.Bool(in.Cfg.SkipDef), lib.Bool(in.Cfg.Report), lib.Bool(in.Cfg.NoSP), lib.Bool(in.Cfg.Wrap || in.Cfg.Soft), lib.Bool(in.Cfg.Soft)),
 		fault,
 		lib.App("OC", lib.Bool(o.Entered), lib.ListOf(o.Log, obsTerm), clsTerm(o.Exit), clsTerm(o.Ret)),
 		lib.ListOf(o.Extra, clsTerm), lib.ListOf(o.Stray, clsTerm),
-		lib.ZList(o.Table), lib.Z(o.InUse), lib.Z(o.OpenTx), lib.ListOf(o.Ops, opTerm))
+		lib.ZList(o.Table), lib.Z(o.InUse), lib.Z(o.OpenTx), lib.ListOf(o.Ops, opTerm),
+		optsTerm(in), lib.Z(o.BeginOpt), singleTerm(in))
 }
 
 // ---------------------------------------------------------------- generators
@@ -789,7 +945,7 @@ func (g *gen) write() Item {
 		// (gorm's documented behaviour of a reused chain), which the programs do not go on using
 		it.Via, it.Chk, it.Empty = "kept", true, g.r.Bool()
 	case c < 6:
-		it.Via = lib.Pick(g.r, []string{"sess", "sess_prep", "ctx"})
+		it.Via = lib.Pick(g.r, []string{"sess", "sess_prep", "ctx", "sess_hooks"})
 	}
 	return it
 }
@@ -846,6 +1002,9 @@ func (g *gen) blk(depth, maxDepth int, edge bool) Blk {
 				cb := g.blk(depth+1, maxDepth, edge)
 				g.inCx = was
 				it := Item{K: "child", B: &cb, Chk: r.Chance(1, 2), Rcv: r.Chance(1, 3), Cx: cx, NN: r.Chance(1, 6)}
+				if r.Chance(1, 6) {
+					it.Opt = lib.Pick(r, txOptLists)
+				}
 				if it.Rcv && r.Bool() { // recovered panics are only interesting when there is one
 					cb.Out, cb.E = "panic", g.esent%16
 					g.esent++
@@ -928,6 +1087,9 @@ func shapeBlk(b *Blk, sb *strings.Builder) {
 		if it.NN {
 			sb.WriteByte('~')
 		}
+		if it.Opt != "" {
+			sb.WriteString("o" + it.Opt)
+		}
 		if it.K == "cancel" {
 			sb.WriteByte('x')
 		}
@@ -937,7 +1099,7 @@ func shapeBlk(b *Blk, sb *strings.Builder) {
 
 func shape(in Input, o Observed) string {
 	var sb strings.Builder
-	fmt.Fprintf(&sb, "%s|p%v n%v s%v r%v %s o%v %v|", in.Top, in.Cfg.Prep, in.Cfg.NoNest, in.Cfg.SkipDef, in.Cfg.Report, in.Cfg.Via+fmt.Sprint(in.Cfg.NoSP, in.Conn), in.Opts, in.Stray)
+	fmt.Fprintf(&sb, "%s|p%v n%v s%v r%v %s o%v %s|", in.Top, in.Cfg.Prep, in.Cfg.NoNest, in.Cfg.SkipDef, in.Cfg.Report, in.Cfg.Via+fmt.Sprint(in.Cfg.NoSP, in.Conn), in.TxOpt, fmt.Sprint(in.Stray, in.Discard))
 	shapeBlk(&in.Body, &sb)
 	fk := "none"
 	if in.Fault >= 0 && in.Fault < len(o.Ops) {
@@ -983,6 +1145,9 @@ func sig(in Input, o Observed) string {
 	}
 	return ""
 }
+
+// the variadic option lists handed to Transaction / Begin
+var txOptLists = []string{"empty", "nil", "ro", "ser", "ro_ser", "nil+ro", "ro+empty", "empty+ro"}
 
 // small trees for the exhaustive sweep: every block has at most one write before and one after
 // at most one child; all outcome assignments; both "return the child's error" choices.
@@ -1099,7 +1264,7 @@ func main() {
 				fk = o.Ops[in.Fault].K
 			}
 		}
-		nontriv := (w >= 2 && c >= 1 && len(o.Table) > 0 && len(o.Table) < w) || (fk != "none" && fk != "beyond-last-op" && w >= 1 && c >= 1)
+		nontriv := in.Top == "single" && fk != "none" && fk != "beyond-last-op" && w >= 2 || (w >= 2 && c >= 1 && len(o.Table) > 0 && len(o.Table) < w) || (fk != "none" && fk != "beyond-last-op" && w >= 1 && c >= 1)
 		out.Add(lib.Case{Term: term(in, o), JSON: map[string]interface{}{"input": in, "observed": o},
 			Sig: sig(in, o), Kind: kind, Shape: shape(in, o), Nontriv: nontriv})
 		out.Count("top", in.Top)
@@ -1149,7 +1314,10 @@ func main() {
 	// corpus replays one).
 	faulted := func(kind string, in Input, free Observed, k int, phase string) {
 		in.Fault, in.Phase = k, phase
-		in.ErrIs = []string{"", "", "canceled", "deadline"}[(k+len(free.Ops))%4]
+		in.ErrIs = []string{"", "", "canceled", "deadline", "badconn"}[(k+len(free.Ops))%5]
+		if in.Cfg.Prep && free.Ops[k].K == "stmt" && (k+len(free.Ops))%2 == 0 {
+			in.ErrIs = "badconn" // with PrepareStmt gorm has code of its own for this kind of failure
+		}
 		in.Body = copyBlk(&in.Body)
 		if !in.Cfg.Report && (free.Ops[k].K == "save" || free.Ops[k].K == "rbto") {
 			return
@@ -1191,6 +1359,9 @@ func main() {
 					in.Extra = [][]string{{"rollback"}, {"commit"}, nil}[ti%3]
 				}
 				in.Conn = (ti+2*ci)%7 == 3
+				if k := (ti + 5*ci) % 24; k < len(txOptLists) {
+					in.TxOpt = txOptLists[k]
+				}
 				if !in.Conn && (ti+3*ci)%9 == 4 {
 					in.Cfg.Wrap, in.Cfg.Soft = true, ti%2 == 0
 				}
@@ -1227,7 +1398,9 @@ func main() {
 		if r.Chance(1, 10) {
 			in.Cfg.NoSP, in.Cfg.Report = true, true
 		}
-		in.Opts = r.Chance(1, 4)
+		if r.Chance(1, 3) {
+			in.TxOpt = lib.Pick(r, txOptLists)
+		}
 		in.Conn = r.Chance(1, 5)
 		if !in.Conn && r.Chance(1, 5) {
 			in.Cfg.Wrap = true
@@ -1248,6 +1421,38 @@ func main() {
 		kind := "main"
 		if edge {
 			kind = "edge"
+		}
+		if r.Chance(1, 6) {
+			// no block at all: 1-4 calls on the pool handle, each write inside the transaction gorm opens for it;
+			// fault-free and with every one of its driver operations failing
+			in.Top, in.Extra, in.TxOpt, in.Cfg.Soft = "single", nil, "", false
+			in.Body = Blk{Items: []Item{}, Out: "nil"}
+			for k := r.Range(1, 4); k > 0; k-- {
+				switch c := r.Intn(8); {
+				case c < 5:
+					g.marker++
+					in.Body.Items = append(in.Body.Items, Item{K: "write", M: g.marker, Via: lib.Pick(r, []string{"", "", "sess", "sess_prep", "ctx", "sess_hooks"})})
+				case c < 6:
+					g.marker++
+					in.Body.Items = append(in.Body.Items, Item{K: "write", M: g.marker, Via: lib.Pick(r, []string{"exec", "exec_new"})})
+				default:
+					in.Body.Items = append(in.Body.Items, Item{K: "read", Via: lib.Pick(r, []string{"", "sess", "ctx"})})
+				}
+			}
+			if r.Chance(1, 3) {
+				for k := r.Range(1, 2); k > 0; k-- {
+					in.Discard = append(in.Discard, lib.Pick(r, []string{"skipdef", "nonest", "prep", "hooks"}))
+				}
+			}
+			free := add(kind, in)
+			for k := range free.Ops {
+				ph := "exec"
+				if in.Cfg.Prep && r.Bool() {
+					ph = "prepare"
+				}
+				faulted(kind, in, free, k, ph)
+			}
+			continue
 		}
 		// fault-free run first (it tells how many driver operations the program issues), then
 		// the same program with one operation failing
